@@ -1,6 +1,7 @@
 import CddVerif.Driver.Basic
 import CddVerif.Py.AstJson
 import CddVerif.Model.SyncProperties
+import CddVerif.Model.SyncPropertiesMulti
 /-! Driver ops for C13 (line protocol; see Main.lean). Only Mathlib-free imports here. -/
 namespace Driver.C13
 open Lean Driver PyAst SyncProps
@@ -44,7 +45,32 @@ def optStrOf (j : Json) (k : String) : Option String :=
 def stateJ (st : RState) : List (String × Json) :=
   [("replaced", Json.bool st.replaced), ("poisoned", Json.bool st.poisoned), ("phantom", Json.bool st.phantom)]
 
+def pairOf (j : Json) : Except String Pair := do
+  let ev := match j.getObjVal? "eval_value" with
+    | .ok (.arr a) => some (a.toList.map constOf)
+    | _ => none
+  return { inputParam := (← getStr j "input_param"), outputParam := (← getStr j "output_param"), evalValue := ev }
+
+/-- index of the first pair that raises (diagnostics) -/
+def failedAt (inputEval : Bool) (wrap : Option String) : MState → List Pair → Nat → Option Nat
+  | _, [], _ => none
+  | ms, p :: ps, k =>
+    match stepPair inputEval wrap ms p with
+    | .error _ => some k
+    | .ok ms' => failedAt inputEval wrap ms' ps (k + 1)
+
 def ops : List (String × Handler) := [
+  ("c13.sync_multi", fun j => do
+    let input := moduleOf (← j.getObjVal? "input")
+    let output := moduleOf (← j.getObjVal? "output")
+    let pairs ← (← getArr j "pairs").toList.mapM pairOf
+    let ev := (getBool j "input_eval").toOption.getD false
+    let wrap := optStrOf j "wrap"
+    match syncAll ev wrap pairs input output with
+    | .error e =>
+      let k := failedAt ev wrap { input := annotateInput (astParse input), output := annotateOutput (astParse output) } pairs 0
+      return Json.mkObj [("error", Json.str (errName e)), ("failed_at", optNat k)]
+    | .ok m => return Json.mkObj [("ok", moduleJ m)]),
   ("c13.annotate", fun j => do
     let m := moduleOf (← j.getObjVal? "module")
     return Json.mkObj [("entries", Json.arr ((annotateAncestry m).map fun e =>
